@@ -36,6 +36,10 @@ impl ResolvedCalendarFields {
     ) -> TemporalResult<Self> {
         let era_year = EraYear::try_from_partial_date(partial_date)?;
         if partial_date.calendar.is_iso() {
+            // A year outside of the supported range can never resolve to a valid date.
+            if !(-271_821..=275_760).contains(&era_year.year) {
+                return Err(TemporalError::range().with_message("year is not in a valid range."));
+            }
             let month_code = resolve_iso_month(partial_date, overflow)?;
             let day = resolve_day(partial_date.day, resolve_type == ResolutionType::YearMonth)?;
             let day = if overflow == ArithmeticOverflow::Constrain {
